@@ -892,6 +892,12 @@ def run(rep, tier):
     rep.floor("password hiding cases", hiding_rule(rep, ur), 12)
     rep.floor("builder arms", live_rule(rep, ur, consts), 5)
     rep.floor("password lengths sized", password_size_rule(rep, ur, consts), 11)
+    # the client assembles the packet in an io_buf: the header fields it looks at are those of the packet, not of the buffer object
+    from rules import r_tbaa
+    nrc = 0
+    for lab in ("src/proto/radius_client.c", "src/proto/dns_resolv.c"):
+        nrc += r_tbaa.check_record_casts(rep, us[lab], [f for f in us[lab].function_list if f.relfile() == lab])
+    # (expected count on a correct tree is zero: the positive example is fixtures/tbaa.c fx_reccast_bad, run by the selftest)
     rep.floor("DNS writer/reader pairs", dns_layout_rule(rep, ud), 2)
     # the header flag words are bit-field records declared once per host byte order: both declarations name the same wire bits
     rep.floor("DNS flag bit-fields (both byte orders)", r_bitlayout.check(rep, us, "proto/dns.h"), 13)
@@ -941,6 +947,12 @@ def run(rep, tier):
 
 
 def selftest():
+    from rules import r_tbaa as _rt
+    from props import fixtures as _fx
+    _u = _fx.load("tbaa.c")
+    _rep = driver.Report("fixture", "quick")
+    _rt.check_record_casts(_rep, _u, [f for f in _u.function_list if f.name.startswith("fx_reccast")])
+    _fx.expect(_rep, ["fx_reccast_bad"], ["fx_reccast_ok"], "R-TBAA record casts")
     u = fixtures.load("endian.c")
     rep = driver.Report("fixture", "quick")
     r_endian.check(rep, u, [f for f in u.function_list if f.name.startswith("fx_")])
